@@ -30,6 +30,7 @@ type Spec struct {
 	Quick         int
 	Thorough      int
 	Heavy         bool // gets a larger share of the deadline
+	ThoroughOnly  bool // not explored on the quick tier
 }
 
 type workerOut struct {
@@ -65,6 +66,8 @@ func Main(id string, specs []Spec, assumptions []string, rule string) {
 		b := s.Quick
 		if r.Thorough() {
 			b = s.Thorough
+		} else if s.ThoroughOnly {
+			continue
 		}
 		jobs = append(jobs, job{i, b, budget})
 	}
